@@ -9,7 +9,8 @@ Open Scope string_scope.
 
 Inductive expr :=
 | EConst (c : const)
-| EName (s : string)
+| EName (s : string)                                      (* a global / builtin / literal name *)
+| EVar (i : nat)                                          (* fickling's own variable _var<i> *)
 | ETuple (l : list expr)
 | ENode (i : nat)                                         (* ast.List / ast.Set / ast.Dict object *)
 | ECall (f : expr) (args : list expr) (kw : option expr)  (* kw: **kwargs of NEWOBJ_EX *)
@@ -29,8 +30,9 @@ Inductive item :=
 
 Inductive stmt :=
 | SImport (m n : string)                 (* from m import n *)
-| SAssign (v : string) (e : expr)        (* v = e *)
-| SSetItem (v : string) (k e : expr)     (* v[k] = e *)
+| SAssignV (i : nat) (e : expr)          (* _var<i> = e *)
+| SResult (e : expr)                     (* result = e *)
+| SSetItemV (i : nat) (k e : expr)       (* _var<i>[k] = e *)
 | SExpr (e : expr).                      (* e *)
 
 Record fk := mkFk {
@@ -108,9 +110,8 @@ Definition get_node (i : nat) (s : fk) : option node := nth_error (nodes s) i.
 (* ---- module body ---- *)
 Definition emit (st : stmt) (s : fk) : fk :=
   mkFk (stack s) (memo s) (nodes s) (st :: body s) (ctr s) (stopped s).
-Definition new_variable (e : expr) (s : fk) : string * fk :=
-  let v := var_name (ctr s) in
-  (v, mkFk (stack s) (memo s) (nodes s) (SAssign v e :: body s) (S (ctr s)) (stopped s)).
+Definition new_variable (e : expr) (s : fk) : nat * fk :=
+  (ctr s, mkFk (stack s) (memo s) (nodes s) (SAssignV (ctr s) e :: body s) (S (ctr s)) (stopped s)).
 
 Definition is_builtins (m : string) : bool := mem_str m builtins_modules.
 
@@ -139,7 +140,7 @@ Definition call_with (f args : expr) (kw : option expr) : expr :=
   end.
 
 Definition bind_call (call : expr) (s : fk) : fk :=
-  let '(v, s1) := new_variable call s in push (EName v) s1.
+  let '(v, s1) := new_variable call s in push (EVar v) s1.
 
 Definition step (o : op) (s : fk) : res fk :=
   match o with
@@ -147,7 +148,7 @@ Definition step (o : op) (s : fk) : res fk :=
   | OMark => Ok (with_stack s (IMark :: stack s))
   | OStop =>
       do '(e, s1) <- pop_val s;
-      Ok (mkFk (stack s1) (memo s1) (nodes s1) (SAssign "result" e :: body s1) (ctr s1) true)
+      Ok (mkFk (stack s1) (memo s1) (nodes s1) (SResult e :: body s1) (ctr s1) true)
   | OPop =>
       match stack s with
       | [] => Err EIndex
@@ -203,18 +204,18 @@ Definition step (o : op) (s : fk) : res fk :=
           match get_node i s3 with
           | Some (NDict kvs) => Ok (push d (set_node i (NDict (kvs ++ [(k, v)])) s3))
           | _ => let '(name, s4) := new_variable d s3 in
-                 Ok (push (EName name) (emit (SSetItem name k v) s4))
+                 Ok (push (EVar name) (emit (SSetItemV name k v) s4))
           end
       | _ => let '(name, s4) := new_variable d s3 in
-             Ok (push (EName name) (emit (SSetItem name k v) s4))
+             Ok (push (EVar name) (emit (SSetItemV name k v) s4))
       end
   | OSetItems =>
       do '(items, s1) <- pop_slice s; do '(d, s2) <- pop_val s1;
       let upd := pairs_of items in
       let other :=
         let '(name, s3) := new_variable d s2 in
-        Ok (push (EName name)
-              (emit (SExpr (ECall (EAttr (EName name) "update") [EDictLit upd] None)) s3)) in
+        Ok (push (EVar name)
+              (emit (SExpr (ECall (EAttr (EVar name) "update") [EDictLit upd] None)) s3)) in
       match d with
       | ENode i =>
           match get_node i s2 with
@@ -270,8 +271,8 @@ Definition step (o : op) (s : fk) : res fk :=
   | OBuild =>
       do '(st, s1) <- pop_val s; do '(obj, s2) <- pop_val s1;
       let '(name, s3) := new_variable obj s2 in
-      Ok (push (EName name)
-            (emit (SExpr (ECall (EAttr (EName name) "__setstate__") [st] None)) s3))
+      Ok (push (EVar name)
+            (emit (SExpr (ECall (EAttr (EVar name) "__setstate__") [st] None)) s3))
   | OBinPersId =>
       do '(pid, s1) <- pop_val s;
       Ok (bind_call (ECall (EAttr (EName "UNPICKLER") "persistent_load") [pid] None) s1)
